@@ -17,6 +17,24 @@ PROP = "C05"
 
 def rejects():
     """candidates the property NAMES as unrepresentable (must raise, must change nothing)"""
+    import flow.record.fieldtypes as ft
+
+    R = _rejects()
+    # unrepresentable values that arrive as instances of ANOTHER field type (copied from another record)
+    R["uint16"] += [("uint32_instance_over", ft.uint32(70000)), ("varint_instance_over", ft.varint(70000))]
+    R["net.tcp.Port"] += [("uint32_instance_over", ft.uint32(70000))]
+    R["uint32"] += [("varint_instance_over", ft.varint(2**40)), ("filesize_instance_neg", ft.filesize(-5))]
+    R["boolean"] += [("uint16_instance_two", ft.uint16(2))]
+    # the decimal TEXT of an integer that is a valid address is not an address
+    R["net.ipaddress"] += [("digit_text_of_valid_int", "16909060"), ("digit_text_of_valid_int6", str(2**100))]
+    return R
+
+
+# (valid value, malformed twin): the twin is offered right after the valid value went through the same field type
+TWINS = {"net.ipaddress": [(16909060, "16909060"), (2**100, str(2**100))], "net.IPAddress": [(16909060, "16909060")]}
+
+
+def _rejects():
     return {
         "uint16": [("neg", -1), ("over", 0x10000), ("bigover", 2**40)],
         "uint32": [("neg", -1), ("over", 0x100000000)],
@@ -135,6 +153,11 @@ def run(tier):
             for g in good:
                 hist.append([("construct", g), ("assign", c), ("assign", g)])
                 hist.append([("construct", g), ("replace", c)])
+        for good_v, twin in TWINS.get(t, []) if not islist else []:
+            gc, tc = ("twin-valid", good_v, "unspec"), ("twin-malformed", twin, "reject")
+            hist.append([("construct", gc), ("assign", tc)])
+            hist.append([("construct", gc), ("replace", tc)])
+            hist.append([("construct", gc), ("construct", tc)])
         for h in hist:
             rec = None
             ops = []
